@@ -9,6 +9,9 @@
 (* statement (negative control).                                             *)
 (***************************************************************************)
 EXTENDS Integers, Sequences, FiniteSets, TLC, Json, SequencesExt
+\* QueriesAreValues: Open(s, q) fixes the stream's answer to Result(q) for q as it is at that moment; what the caller does
+\* with the query object afterwards (sets a limit / offset for the next page, before the first row of this stream is read)
+\* is no action of this machine
 Qm == INSTANCE Query WITH case <- 0
 CONSTANTS Design, D, Rand
 
